@@ -451,6 +451,25 @@ def c12_case(ctx: Ctx, case: dict):
                 return
 
 
+def c05_run(ctx: Ctx):
+    """as make_run(c05_case …); every third model is followed, in the same process, by a sibling with the same
+    model name, state and parameter names but other equations (whatever an earlier call may have remembered
+    about "this" model must not leak into the next one)"""
+    n = ctx.n(40, 1500)
+    for k in range(n):
+        m = gen.gen_model(ctx.rng, scheme_cfg(ctx, k))
+        cases = [{"text": m.text(ctx.rng)}]
+        if k % 3 == 0:
+            cases.append({"text": gen.sibling(m, ctx.rng).text(ctx.rng), "sibling": True})
+            ctx.count("siblings")
+        for case in cases:
+            with common.time_limit(ctx, 40):
+                c05_case(ctx, case)
+        if ctx.elapsed() > (1500 if ctx.thorough else 150):
+            ctx.notes.append(f"time budget reached after {k + 1} cases")
+            break
+
+
 def c12_run(ctx: Ctx):
     """NumPy on most cases, the C backend on every fourth, JAX on every fifth (small models)"""
     n = ctx.n(30, 1200)
